@@ -48,12 +48,48 @@ def pv(x):
     `True == 1 == 1.0` (and their hashes): the Lean model works on the integer image, the type-aware
     part of the oracle on `repr`."""
     if isinstance(x, str):
-        return bool(int(x[1:])) if x[0] == "b" else float(int(x[1:]))
+        n = int(x[1:])
+        if x[0] in UNHASHABLE:  # a fresh unhashable object every time: [n], {n: n}, {n}, bytearray([n])
+            return UNHASHABLE[x[0]][1](n)
+        return bool(n) if x[0] == "b" else float(n)
     return x
+
+
+# unhashable field values (allowed everywhere; only hash() of their holder raises TypeError). The Lean model
+# sees an opaque value id >= 1000, equal ids <=> == objects.
+UNHASHABLE = {
+    "L": (0, lambda n: [n]), "D": (1, lambda n: {n: n}), "S": (2, lambda n: {n}), "Y": (3, lambda n: bytearray([n])),
+}
+
+
+def tag_of_value(v):
+    """a Python value read back from the real objects -> the case value that denotes it"""
+    i = im(v)
+    if isinstance(v, bool):
+        return f"b{i}"
+    if isinstance(v, float):
+        return f"f{i}"
+    if isinstance(i, int) and i >= 1000:
+        return "LDSY"[i % 10] + str((i - 1000) // 10)
+    return v
+
+
+def unhashable(x):
+    return isinstance(x, (list, dict, set, bytearray)) or (isinstance(x, str) and x[:1] in UNHASHABLE)
 
 
 def im(x):
     """integer image of a case value / of a Python value read back from the real objects"""
+    if isinstance(x, str) and x[:1] in UNHASHABLE and x[1:].isdigit():
+        return 1000 + 10 * int(x[1:]) + UNHASHABLE[x[0]][0]
+    if isinstance(x, list) and len(x) == 1 and type(x[0]) is int:
+        return 1000 + 10 * x[0]
+    if isinstance(x, dict) and len(x) == 1 and type(next(iter(x))) is int:
+        return 1000 + 10 * next(iter(x)) + 1
+    if isinstance(x, set) and len(x) == 1 and type(next(iter(x))) is int:
+        return 1000 + 10 * next(iter(x)) + 2
+    if isinstance(x, bytearray) and len(x) == 1:
+        return 1000 + 10 * x[0] + 3
     if isinstance(x, str) and x[:1] in ("b", "f") and x[1:].lstrip("-").isdigit():
         return int(x[1:])
     if isinstance(x, (bool, int)):
@@ -512,6 +548,15 @@ def snapshot_diff(b, a):
     return None
 
 
+def hashable_obj(o):
+    """a set / namespace all of whose field values are hashable (through the public API)"""
+    try:
+        nss = list(o) if isinstance(o, RenderArgs) else [o]
+        return not any(unhashable(v) for ns in nss for v in ns.as_dict().values())
+    except Exception:  # noqa: BLE001
+        return True
+
+
 def describe(w, o):
     try:
         return ("set " + w.fmt_ra(o)) if isinstance(o, RenderArgs) else ("namespace " + w.ns_fmt(o))
@@ -581,8 +626,12 @@ def replay(cmds, with_oracle=True):
                 want = same_value(w.value(a), w.value(b))
                 if (r == "1") != want:
                     problems.append(("eq", f"op #{n} {c}: == is {r}, values equal is {want}"))
-                if want and hash(a) != hash(b):
+                if want and hashable_obj(a) and hashable_obj(b) and hash(a) != hash(b):
                     problems.append(("hash", f"op #{n} {c}: equal sets hash differently"))
+            elif c[0] == "hash":
+                o = w.objs[c[1]]
+                if (r == "E:TypeError") != (not hashable_obj(o)) or not (r.startswith("h") or r == "E:TypeError"):
+                    problems.append(("hash-query", f"op #{n} {c}: hash({describe(w, o)}) gave {r}"))
             elif c[0] == "has":
                 v = w.value(w.objs[c[1]])
                 want = (c[2][0], tuple(pv(x) for x in c[2][1])) in v[1]
@@ -594,7 +643,8 @@ def replay(cmds, with_oracle=True):
                 if (r == "1") != want:
                     problems.append(("ns-eq", f"op #{n} {c}: == is {r}, same class and field values is {want}"))
             elif c[0] == "nshash":
-                if r != f"g{c[1][0]}:{ints(pv(x) for x in c[1][1])}":
+                want = "E:TypeError" if any(unhashable(x) for x in c[1][1]) else f"g{c[1][0]}:{ints(pv(x) for x in c[1][1])}"
+                if r != want:
                     problems.append(("ns-hash", f"op #{n} {c}: got {r}"))
             elif c[0] == "attr":
                 vals = [pv(x) for x in c[1][1]]
@@ -682,6 +732,16 @@ def replay(cmds, with_oracle=True):
             for kind, group in (("sets", list(w.objs)), ("namespaces", live)):
                 seen, bag, table = [], set(), {}
                 for i, a in enumerate(group):
+                    if not hashable_obj(a):
+                        # a holder of an unhashable field value: hash() must raise TypeError; == must still work
+                        try:
+                            hash(a)
+                            problems.append((f"hash-unhashable/{kind}", f"hash({describe(w, a)}) did not raise"))
+                        except TypeError:
+                            pass
+                        except Exception as e:  # noqa: BLE001
+                            problems.append((f"hash-unhashable/{kind}", f"hash({describe(w, a)}): {type(e).__name__}"))
+                        continue
                     try:
                         eq_to = [j for j, b in enumerate(seen) if a == b]
                         for j in eq_to:
@@ -914,6 +974,8 @@ class Gen:
         return self.w.exec(c)
 
     def val(self):
+        if self.rng.random() < 0.08:  # an unhashable object (list, dict, set, bytearray)
+            return self.rng.choice(["L0", "L0", "L1", "D0", "D1", "S0", "S1", "Y0", "Y1"])
         if self.rng.random() < 0.15:  # ==-equal to an int but of another type
             return self.rng.choice(["b0", "b1", "f0", "f1", "f2"])
         return self.rng.choice([0, 0, 0, 1, 1, 2, -1])
@@ -1061,9 +1123,10 @@ class Gen:
             v = w.value(w.objs[i])
             if v[1] and rng.random() < 0.6:
                 k, vs = rng.choice(v[1])
-                ns = [k, list(vs)]
+                ns = [k, [tag_of_value(x) for x in vs]]
                 if rng.random() < 0.3:
-                    ns[1][rng.randrange(len(ns[1]))] += 1
+                    j = rng.randrange(len(ns[1]))
+                    ns[1][j] = im(ns[1][j]) % 1000 + 1
             else:
                 ns = self.rand_ns()
             return self.emit(["has", i, ns]) if ns else None
@@ -1088,7 +1151,7 @@ class Gen:
             if a is None:
                 return None
             if rng.random() < 0.7:  # same class, same or nearly the same values, any subclass
-                b = [a[0], [self.retype(im(x)) if rng.random() < 0.8 else self.val() for x in a[1]],
+                b = [a[0], [(x if unhashable(x) else self.retype(im(x))) if rng.random() < 0.8 else self.val() for x in a[1]],
                      rng.randrange(len(w.nssub[a[0]]))]
             else:
                 b = self.rand_ns()
@@ -1130,15 +1193,18 @@ def exhaustive_histories():
     and every convert / update / | on every object."""
     forest = [["dc", 0, [0]], ["dc", 1, None], ["dc", 2, [0]], ["dc", 0, [0]], ["ds", 1, 0, 1], ["ds", 1, 1, 2]]
     A0, A1, C0, C1, X0 = [1, [0]], [1, [1]], [3, [0]], [3, [1]], [4, [0]]
+    AL, CD = [1, ["L0"]], [3, ["D1"]]   # unhashable field values
     pasts = [
         [],
+        [["mk", 3, None, [AL, CD]], ["mk", 2, None, [[1, ["S1"]]]], ["mk", 3, None, [AL]], ["mk", 3, None, [CD]],
+         ["mk", 1, None, [[1, ["Y0"]]]], ["hash", 1], ["hash", 4], ["eq", 1, 3]],
         [["mk", 1, None, []], ["mk", 2, None, []], ["mk", 3, None, []], ["mk", 4, None, []]],
         [["mk", 1, None, [A0]], ["mk", 3, None, [A1]], ["mk", 3, None, []], ["mk", 3, 1, [C0]], ["mk", 2, None, [A0]]],
         [["mk", 3, None, [C1, A1]], ["mk", 1, None, []], ["cv", 1, 1], ["cv", 1, 2], ["mk", 2, 0, []]],
     ]
     A0b, A0f, C0b = [1, ["b0"]], [1, ["f0"]], [3, ["b0"]]   # == the defaults, other types
     A0s, A1s, A0ss = [1, [0], 1], [1, [1], 1], [1, [0], 2]  # instances of Sub(A.Args) and SubSub(Sub)
-    nsl = [A0, A1, C0, C1, X0, A0b, A0f, C0b, A0s, A1s, A0ss]
+    nsl = [A0, A1, C0, C1, X0, A0b, A0f, C0b, A0s, A1s, A0ss, AL]
     lists = [[]] + [[a] for a in nsl] + [[a, b] for a in nsl for b in nsl]
     for past in pasts:
         pre = forest + past
@@ -1167,7 +1233,7 @@ def exhaustive_histories():
                                                          ["seta", a, 0, 5], ["seta", a, 1, 5], ["dela", a, 0], ["dela", a, 2]]
         yield pre + [["gett", i, k] for i in range(nobj) for k in range(3)]
     # every unknown keyword name (incl. every non-field attribute of the namespace class), one per command
-    pre = forest + pasts[1]
+    pre = forest + pasts[2]
     w = World()
     try:
         for c in pre:
